@@ -950,7 +950,9 @@ class Interferogram(RichData):
         p = RichData(psd_, 0, self.wavelength)
         p.x = ux
         p.y = uy
-        p.dx = ux[1] - ux[0]
+        # the frequency step of the x axis (ux is a 2D grid that varies along its second
+        # axis, so ux[1] - ux[0] is a row of zeros)
+        p.dx = 1 / (self.data.shape[1] * self.dx)
         p._default_twosided = False
         return p
 
